@@ -1980,7 +1980,7 @@ func (x *x2) print() string {
 	var b strings.Builder
 	w := func(format string, a ...interface{}) { fmt.Fprintf(&b, format, a...) }
 	w("(* GENERATED on every check by `harness translate2` from the Go SOURCE — do not edit.\n")
-	w("   source directory: %s   (module %s)\n\n", x.root, x.modpath)
+	w("   source: the tree the harness was built against (module %s)\n\n", x.modpath)
 	w("   Semantics (vocabulary: lib/GoSlices.v; translator: harness/translate2.go):\n")
 	w("   - every function returns res T: Ok t, Panic (a Go run-time panic: index or slice bounds out of\n")
 	w("     range) or OutOfFuel (a loop ran longer than `fuel`); several Go results are a tuple.\n")
